@@ -242,7 +242,10 @@ func (c *converter) syncPartial() {
 		delete(ingMap, ing.Namespace+"/"+ing.Name)
 	}
 	for _, ing := range c.changed.IngressesAdd {
-		ingMap[ing.Namespace+"/"+ing.Name] = ing
+		// always read the current state from the cache: the object carried by
+		// the event is stale if the ingress was also updated or deleted in the
+		// same batch of changes.
+		ingMap[ing.Namespace+"/"+ing.Name] = nil
 	}
 	ingList := make([]*networking.Ingress, 0, len(ingMap))
 	for name, ing := range ingMap {
